@@ -2017,6 +2017,11 @@ class SymEval:
                 return [tuple(t) for t in zip(*seqs)]
         if q == 'builtins.reversed':
             return list(reversed(list(args[0])))
+        if q == 'builtins.enumerate' and args and isinstance(args[0], (list, tuple)) and \
+                set(kwargs) <= {'start'} and len(args) <= 2:
+            st_ = kwargs.get('start', args[1] if len(args) > 1 else 0)
+            if isinstance(st_, int) and not isinstance(st_, bool):
+                return [(st_ + k_, x_) for k_, x_ in enumerate(args[0])]
         if q == 'builtins.isinstance':
             return self.isinstance_(args[0], node.args[1])
         if q == 'builtins.abs':
